@@ -75,6 +75,10 @@ var anchorWords = func() map[string]bool {
 			}
 		}
 	}
+	// helpers that rules treat as a boundary without naming them in a lookup
+	for _, w := range []string{"nextUnpaged"} {
+		out[w] = true
+	}
 	return out
 }()
 
